@@ -564,6 +564,12 @@ func TestREST(t *testing.T) {
 		{"wrong-password:prefix-up-to-colon", true, "Basic " + b64("alice:wonder")},
 		{"wrong-password:trailing-space", true, "Basic " + b64("alice:wonder:land ")},
 		{"wrong-password:other-users", true, "Basic " + b64("alice:builder")},
+		{"wrong-user:empty-password", true, "Basic " + b64("mallory:")},
+		{"wrong-user:empty-user-and-password", true, "Basic " + b64(":")},
+		{"wrong-user:other-users-password", true, "Basic " + b64("mallory:builder")},
+		{"wrong-user:whitespace", true, "Basic " + b64(" alice:wonder:land")},
+		{"wrong-user:known-user-as-prefix", true, "Basic " + b64("alic:wonder:land")},
+		{"wrong-user:known-user-plus-suffix", true, "Basic " + b64("alicex:wonder:land")},
 		{"other-user-with-first-users-password", true, "Basic " + b64("bob:wonder:land")},
 		{"right:alice", true, "Basic " + b64("alice:wonder:land")},
 		{"right-in-two-user-config:bob", true, "Basic " + b64("bob:builder")},
